@@ -32,6 +32,7 @@ type UnitResult struct {
 	Pruned      int           `json:"pruned_paths"`
 	Vacuous     []string      `json:"vacuous,omitempty"`
 	Probes      []Probe       `json:"probes,omitempty"`
+	Bounded     bool          `json:"bounded_run,omitempty"`
 	PureCalls   []string      `json:"pure_calls,omitempty"`
 }
 
@@ -105,6 +106,11 @@ func (x *Exec) verifyFunc(fn *ssa.Function, c *FuncContract) (err error) {
 	for _, r := range c.Requires {
 		st.assume(env.evalBool(r.E))
 	}
+	if x.boundedRun {
+		for _, b := range c.Bounded {
+			st.assume(env.evalBool(b.E))
+		}
+	}
 	x.obls = append(x.obls, &Obligation{Name: x.unit + "#cover:requires", Unit: x.unit, Kind: "cover", Label: "requires", Hyps: st.pcList(), Goal: tTrue, Cover: true})
 	x.entry = st.clone()
 	for i, p := range fn.Params {
@@ -130,12 +136,29 @@ func (x *Exec) verifyFunc(fn *ssa.Function, c *FuncContract) (err error) {
 			continue
 		}
 		nret++
+		// auto-frame lemmas: proved from the store chain, then available to the posts
+		for i, lem := range x.autoFrame(o.st) {
+			x.oblige(o.st, "auto-frame", fmt.Sprintf("%d", i+1), lem, fn.Pos())
+			o.st.assume(lem)
+		}
 		penv := &SpecEnv{x: x, st: o.st, old: x.entry, names: names, pkg: fn.Pkg.Pkg, results: o.results, sig: fn.Signature, witFr: o.fr}
 		for _, e := range c.Ensures {
 			if strings.HasPrefix(e.Label, "assumed-") {
 				// clause-level trust: used at call sites, not checked here (listed in the evidence)
 				x.assumed[x.unit+" clause "+e.Label] = true
 				continue
+			}
+			isB := strings.HasPrefix(e.Label, "bounded-") || c.BoundedOnly
+			if x.boundedRun {
+				// bounded stand-in run: only the bounded clauses, under the
+				// bounding assumptions made at entry (reported as bounded)
+				if isB {
+					x.oblige(o.st, "bounded-post", e.Label, penv.evalBool(e.E), fn.Pos())
+				}
+				continue
+			}
+			if isB {
+				continue // checked in the bounded run only
 			}
 			x.oblige(o.st, "post", e.Label, penv.evalBool(e.E), fn.Pos())
 		}
@@ -202,6 +225,11 @@ func (x *Exec) frameObligations(st *State, env *SpecEnv, c *FuncContract, fn *ss
 func (x *Exec) globalAxioms() []string {
 	var ax []string
 	ax = append(ax, x.axioms...)
+	for _, la := range x.lateAxioms {
+		if x.d.seen[la.heap] {
+			ax = append(ax, la.term) // typing facts of the entry heaps
+		}
+	}
 	if len(x.sentinels) > 1 {
 		ax = append(ax, "(distinct "+strings.Join(x.sentinels, " ")+")")
 	}
